@@ -144,8 +144,8 @@ macro_rules! parts {
     }};
 }
 
-static SYS: LockStep = LockStep { property: "C05", probes: true, seed: None, via_feed: false };
-static SYS_MED: LockStep = LockStep { property: "C05", probes: false, seed: None, via_feed: false };
+static SYS: LockStep = LockStep { property: "C05", probes: true, seed: None, via_feed: false, merged: false };
+static SYS_MED: LockStep = LockStep { property: "C05", probes: false, seed: None, via_feed: false, merged: false };
 
 /// the same commands on a screen that is not tiny, with mid-range parameters
 fn alpha_medium(cfg: &Cfg) -> Vec<Op> {
@@ -191,7 +191,7 @@ fn medium_part(tier: Tier) -> Part<'static, LockStep> {
     }
 }
 
-static SYS_SWEEP: LockStep = LockStep { property: "C05", probes: false, seed: Some(&super::sweep::fill), via_feed: false };
+static SYS_SWEEP: LockStep = LockStep { property: "C05", probes: false, seed: Some(&super::sweep::fill), via_feed: false, merged: false };
 
 fn alpha_sweep(cfg: &Cfg) -> Vec<Op> {
     let mut v = super::sweep::placements(cfg, false);
@@ -225,7 +225,7 @@ fn alpha_sweep(cfg: &Cfg) -> Vec<Op> {
     v
 }
 
-static SYS_MODES: LockStep = LockStep { property: "C05", probes: false, seed: None, via_feed: false };
+static SYS_MODES: LockStep = LockStep { property: "C05", probes: false, seed: None, via_feed: false, merged: false };
 
 fn alpha_wide(cfg: &Cfg) -> Vec<Op> {
     super::sweep::layered(super::sweep::wide_placements(cfg), super::sweep::wide_move_funcs(cfg))
